@@ -1,5 +1,88 @@
-import RPVerif.Model.Sched
+import RPVerif.Lemmas.Sched
+
+/-!
+# C01 — Pilot resources are never oversubscribed
+
+Theorems about the faithful model of `Continuous._find_resources` and
+`_change_slot_states` (tied to the real scheduling loop by the correspondence
+suite).  Status: the per-node safety of every grant and the effect of marking
+are proved for all node states and requests; the lift over whole histories of
+the loop is carried by the monitor + exact model/implementation comparison
+(partial, see DESIGN.md).
+-/
 namespace RPVerif.C01
-open RPVerif.Sched
-theorem placeholder : (1 : Nat) = 1 := rfl
+open RPVerif.Sched List
+
+/-- **every grant fits the node it is taken from**: whatever the occupancy of the
+    node, the request and the number of slots asked for, the slots returned by
+    the model of `_find_resources` name only FREE cores, pairwise distinct over
+    all slots; every GPU named exists, is not blocked, and the shares handed out
+    on it (with what the node map already shows) sum to at most one GPU; the
+    storage and memory of all slots together fit what the node has left. -/
+theorem C01_grant_fits_node (n : NodeSt) (nSlots cps gpr lfs mem : Nat) (p : Bool) (slots : List Slot)
+    (hcps : 0 < cps) (hl : lfs ≠ 0 → (0 : Int) ≤ n.lfs) (hm : mem ≠ 0 → (0 : Int) ≤ n.mem)
+    (h : findResources n nSlots cps gpr lfs mem p = .ok (some slots)) :
+    NodeFit n cps gpr lfs mem slots :=
+  (findResources_fit n nSlots cps gpr lfs mem p slots hcps hl hm h).1
+
+/-- no core is handed out twice within one grant -/
+theorem C01_cores_distinct {n : NodeSt} {cps gpr lfs mem : Nat} {slots : List Slot}
+    (h : NodeFit n cps gpr lfs mem slots) : (allCores slots).Nodup := by
+  have := h.cores_inc
+  exact this.imp (fun hlt => Nat.ne_of_lt hlt)
+
+/-- blocked (DOWN) and busy cores are never part of a grant -/
+theorem C01_no_blocked_core {n : NodeSt} {cps gpr lfs mem : Nat} {slots : List Slot}
+    (h : NodeFit n cps gpr lfs mem slots) (c : Nat) (hc : c ∈ allCores slots) :
+    n.cores[c]? ≠ some Occ.down ∧ n.cores[c]? ≠ some Occ.busy := by
+  rw [h.cores_free c hc]; simp
+
+/-- the shares a grant puts on one GPU never exceed what is left of it, and a
+    blocked GPU is never used -/
+theorem C01_gpu_share_bound {n : NodeSt} {cps gpr lfs mem : Nat} {slots : List Slot}
+    (h : NodeFit n cps gpr lfs mem slots) (g : Nat) (hg : 0 < shareOf (allGpus slots) g) :
+    shareOf (allGpus slots) g ≤ 16 ∧ n.gpus[g]? ≠ some Occ.down ∧ n.gpus[g]? ≠ none := by
+  obtain ⟨o, h1, h2, h3⟩ := h.gpus_fit g hg
+  refine ⟨by omega, ?_, by rw [h1]; simp⟩
+  rw [h1]; intro e; exact h2 (Option.some.inj e)
+
+/-- **what is marked busy cannot be granted again**: after `_change_slot_states`
+    marked a slot BUSY on a node, no later search on that node returns any of
+    its cores (while it is held) -/
+theorem C01_held_not_regranted (n : NodeSt) (sl : Slot) (nSlots cps gpr lfs mem : Nat) (p : Bool)
+    (slots : List Slot) (hcps : 0 < cps)
+    (hl : lfs ≠ 0 → (0 : Int) ≤ (applySlot n sl true).lfs) (hm : mem ≠ 0 → (0 : Int) ≤ (applySlot n sl true).mem)
+    (h : findResources (applySlot n sl true) nSlots cps gpr lfs mem p = .ok (some slots)) :
+    ∀ c ∈ allCores slots, c ∉ sl.cores := by
+  intro c hc hin
+  have hfit := (findResources_fit _ nSlots cps gpr lfs mem p slots hcps hl hm h).1
+  have hfree := hfit.cores_free c hc
+  have hcores : (applySlot n sl true).cores = foldSet n.cores sl.cores .busy := by
+    simp [applySlot, foldSet]
+  rw [hcores, foldSet_get] at hfree
+  simp only [hin, if_true] at hfree
+  cases hn : n.cores[c]? with
+  | none => rw [hn] at hfree; simp at hfree
+  | some o => rw [hn] at hfree; simp at hfree
+
+/-- FULL statement (all histories, placements chosen by the scheduler OR supplied
+    by the application) is FALSE on the current code: an application-supplied
+    placement is passed on without being marked busy (recorded finding F3).
+    Witness on the faithful model: task 0 is placed by the application on core 0
+    of the only node, task 1 is then scheduled onto the same core. -/
+theorem C01_app_slots_witness :
+    (runLoop { cpn := 1, gpn := 0, lfsPn := 0, memPn := 0 }
+        { nodes := [{ index := 0, cores := [.free], gpus := [], lfs := 0, mem := 0 }] } true
+        [{ incoming := [.sched [{ uid := 0, ranks := 1, cpr := 1, gpr := 0, lfs := 0, mem := 0,
+                                   app := some [{ node := 0, cores := [0], gpus := [], lfs := 0, mem := 0 }] },
+                                 { uid := 1, ranks := 1, cpr := 1, gpr := 0, lfs := 0, mem := 0 }]] }] []).1.given
+      = [(0, [{ node := 0, cores := [0], gpus := [], lfs := 0, mem := 0 }]),
+         (1, [{ node := 0, cores := [0], gpus := [], lfs := 0, mem := 0 }])] := by
+  decide
+
+/-! non-vacuity (tests) -/
+example : findResources { index := 3, cores := [.free, .down, .busy, .free, .free], gpus := [.down, .free, .free],
+                          lfs := 10, mem := 0 } 2 2 10 4 0 true
+    = .ok (some [{ node := 3, cores := [0, 3], gpus := [(1, 10)], lfs := 4, mem := 0 }]) := by rfl
+
 end RPVerif.C01
